@@ -15,6 +15,12 @@ def check(model: Model, run: Run) -> None:
     written_as_held(model, run)
     from ..tlvcheck import string_encoding_defaults
     string_encoding_defaults(model, run, "B13-ldapstring-is-utf8-by-default")
+    from ..commonrules import memoised_results_are_immutable, no_memoised_views_of_fields
+    memoised_results_are_immutable(model, run, "B14-no-memoised-mutable-results", ("sansldap._messages", "sansldap._controls", "sansldap._filter", "sansldap._authentication", "sansldap.asn1"),
+                                   "octets one message appended are part of the next message's encoding")
+    no_memoised_views_of_fields(model, run, "B15-nothing-derived-from-the-fields-is-memoised",
+                                [q for q, c in model.classes.items() if c.is_dataclass and c.module in ("sansldap._messages", "sansldap._controls", "sansldap._filter", "sansldap._authentication")],
+                                "the bytes are those of the object as it was when first encoded")
     ex = extracted(model)
     run.explanation = ("the TLV grammar each writer (pack/_pack_inner/get_value) can emit is extracted by abstract interpretation of the writer idiom "
                        "(tags constant-folded, asn1.py's own defaults read from asn1.py) and compared component by component with an independent transcription "
